@@ -151,6 +151,9 @@ func walkStruct(sv reflect.Value, kind, path string, out *[]memLoc) {
 			case et.Kind() == reflect.Uint8:
 				if fv.Len() > 0 {
 					add("bin-leaf", p, fv.Pointer(), xorBytes(fv))
+				} else if fv.Cap() > 0 {
+					// zero-length value with spare capacity: nothing to scribble on, the address is the evidence
+					add("bin-spare", p, fv.Pointer(), func() {})
 				}
 			case isStructPtrType(et):
 				var els []reflect.Value
@@ -264,6 +267,8 @@ func walkValueMem(el reflect.Value, prefix, p string, out *[]memLoc) {
 	case reflect.Slice:
 		if el.Len() > 0 {
 			add("bin", el.Pointer(), xorBytes(el))
+		} else if el.Cap() > 0 {
+			add("bin-spare", el.Pointer(), func() {})
 		}
 	case reflect.Interface:
 		if el.IsNil() {
